@@ -75,12 +75,13 @@ def walk_sweep(ck, tier):
             self.v = v
 
         def randint(self, a, b):
-            assert a == 1
+            BOUNDS.append((a, b))
             return self.v
 
     class FakeState(object):
         def __init__(self, v):
             self.rng = FakeRng(v)
+    BOUNDS = []
     real_random = M.random
     try:
         for ws, m in zip(lists, models):
@@ -101,6 +102,21 @@ def walk_sweep(ck, tier):
                 M.randselect([(w, (lambda k=k: hit.append(k))) for k, w in enumerate(ws)])
                 rsel.append(hit[0] if len(hit) == 1 else None)
                 ck.count("kernel_evals", 3)
+            # the draw itself: one value out of 1..total, equally likely
+            asked = sorted(set(BOUNDS))
+            del BOUNDS[:]
+            if asked != [(1, total)]:
+                ck.corr_fail("dist.draw-range", {"ws": ws}, [[1, total]], [list(x) for x in asked])
+                # what do the helpers do for the values they may now draw?  an entry of weight zero must never come out
+                for a, b in asked:
+                    for r in list(range(a, min(b, total + 2) + 1)):
+                        M.random = FakeRng(r)
+                        k = M.distselect(list(ws))
+                        if ws[k] == 0:
+                            ck.oracle_fail("zero-weight-entry-selected:distselect", {"weights": ws, "drawn": r, "draw_range": [a, b]},
+                                           {"selected": k}, "an entry of weight zero is never selected")
+                            break
+                del BOUNDS[:]
             for name, got, want in (("next_target_range", nxt, m["next"]), ("distselect", sel, m["select"]), ("randselect", rsel, m["select"])):
                 if got != want:
                     ck.corr_fail("dist." + name, {"ws": ws}, want, got)
